@@ -1833,6 +1833,59 @@ class DefaultOverride(SeqKind):
         return M(iv[0] - p['k'], ow[0])
 
 
+class _StepAdd(py4hw.Logic):
+    """behavioural leaf with a Verilog parameter: r <= a + STEP"""
+
+    def __init__(self, parent, name, a, r, step):
+        super().__init__(parent, name)
+        self.a = self.addIn('a', a)
+        self.r = self.addOut('r', r)
+        self.addParameter('STEP', step)
+
+    def clock(self):
+        self.r.prepare(self.a.get() + self.getParameterValue('STEP'))
+
+
+class _ParamScaler(py4hw.Logic):
+    """parameterised structural block; one Verilog module per width is shared by all instances, the first child inherits
+    the parameter of its parent by reference (Logic.getParameter), the second has a literal one"""
+
+    def __init__(self, parent, name, a, r, step):
+        super().__init__(parent, name)
+        self.addIn('a', a)
+        self.addOut('r', r)
+        self.addParameter('STEP', step)
+        m = self.wire('m', a.getWidth())
+        _StepAdd(self, 'first', a, m, self.getParameter('STEP'))
+        _StepAdd(self, 'second', m, r, 1)
+
+    def structureName(self):
+        return 'ParamScaler{}_{}'.format(self.inPorts[0].wire.getWidth(), self.outPorts[0].wire.getWidth())
+
+
+@register
+class ParamScaler(SeqKind):
+    name = 'ParamScaler'
+    tags = ('seq', 'extra', 'userblock', 'transpiled', 'shared', 'param')
+    weight = 0.8
+
+    def plan(self, rng, pool):
+        a, w = pool.any(2, 31)
+        return {'step': rng.choice([0, 1, 2, 5, 9, 200])}, [a], [rng.choice([w, w, max(1, w - 1), w + 2])]
+
+    def build(self, parent, nm, ins, outs, p):
+        return _ParamScaler(parent, nm, ins[0], outs[0], p['step'])
+
+    def init(self, p, iw, ow):
+        return (0, 0)
+
+    def outs(self, p, st, iv, iw, ow):
+        return [st[1]]
+
+    def nxt(self, p, st, iv, iw, ow):
+        return (M(iv[0] + p['step'], iw[0]), M(st[0] + 1, ow[0]))
+
+
 # --- behavioural library blocks that reach the Python-to-Verilog transpiler (no catalogue model: used where the oracle is
 #     another real system - C19 twin, C01 co-simulation)
 
